@@ -199,6 +199,11 @@ impl Worker {
         self.rx = Some(rx);
     }
 
+    pub fn restart(&mut self) {
+        self.kill();
+        self.restarts += 1;
+    }
+
     fn kill(&mut self) {
         if let Some(mut c) = self.child.take() {
             let _ = c.kill();
